@@ -347,8 +347,10 @@ namespace bloch::compiler {
             auto mit = cur->methods.find(method);
             if (mit != cur->methods.end()) {
                 for (auto& cand : mit->second) {
-                    auto expected =
-                        substituteMany(cand.paramTypes, cur->typeParams, searchType.typeArgs);
+                    std::vector<TypeInfo> expected;
+                    expected.reserve(cand.paramTypes.size());
+                    for (const auto& pt : cand.paramTypes)
+                        expected.push_back(memberTypeThrough(pt, cur->name, searchType));
                     std::string signature = methodSignatureLabel(cand.name, expected);
                     if (hiddenSignatures.count(signature))
                         continue;
@@ -473,6 +475,37 @@ namespace bloch::compiler {
             cur = std::move(up);
         }
         return std::nullopt;
+    }
+
+    SemanticAnalyser::TypeInfo SemanticAnalyser::selfType() const {
+        TypeInfo self = combine(ValueType::Unknown, m_currentClass);
+        if (const ClassInfo* info = findClass(m_currentClass)) {
+            for (const auto& tp : info->typeParams) {
+                TypeInfo arg = combine(ValueType::Unknown, tp.name);
+                arg.isTypeParam = true;
+                self.typeArgs.push_back(arg);
+            }
+        }
+        return self;
+    }
+
+    SemanticAnalyser::TypeInfo SemanticAnalyser::memberTypeThrough(const TypeInfo& declared,
+                                                                   const std::string& owner,
+                                                                   const TypeInfo& receiver) const {
+        // A member declared in 'owner' with type 'declared' (in terms of owner's type
+        // parameters), reached through a receiver of type 'receiver': owner's parameters are
+        // the arguments the receiver's class passes up its 'extends' clause(s).
+        const ClassInfo* ownerInfo = findClass(owner);
+        if (!ownerInfo || ownerInfo->typeParams.empty())
+            return declared;
+        TypeInfo from = receiver;
+        if (from.typeArgs.empty() && from.className == m_currentClass)
+            from = selfType();
+        if (auto view = inheritedInstantiation(from, owner, nullptr)) {
+            if (view->typeArgs.size() == ownerInfo->typeParams.size())
+                return substituteTypeParams(declared, ownerInfo->typeParams, view->typeArgs);
+        }
+        return declared;
     }
 
     bool SemanticAnalyser::isAssignableType(const TypeInfo& expected,
@@ -1298,7 +1331,7 @@ namespace bloch::compiler {
             if (local.value != ValueType::Unknown || !local.className.empty())
                 return local;
             if (auto field = resolveField(var->name, var->line, var->column))
-                return field->type;
+                return memberTypeThrough(field->type, field->owner, selfType());
             // If it's a known type name, treat it as a type reference (e.g., for static calls).
             if (m_symbols.isTypeName(var->name))
                 return combine(ValueType::Unknown, var->name);
@@ -1336,7 +1369,7 @@ namespace bloch::compiler {
                             return combine(ValueType::Unknown, "");
                         if (!isAccessible(method->visibility, method->owner, m_currentClass))
                             return combine(ValueType::Unknown, "");
-                        return method->returnType;
+                        return memberTypeThrough(method->returnType, method->owner, selfType());
                     }
                 }
             } else if (auto mem = dynamic_cast<MemberAccessExpression*>(call->callee.get())) {
@@ -1344,7 +1377,7 @@ namespace bloch::compiler {
                 if (!obj.className.empty()) {
                     auto* method = findMethodInHierarchy(obj, mem->member, &argTypes);
                     if (method) {
-                        TypeInfo ret = method->returnType;
+                        TypeInfo ret = memberTypeThrough(method->returnType, method->owner, obj);
                         const ClassInfo* cls = findClass(obj.className);
                         if (cls && !cls->typeParams.empty()) {
                             // First, substitute class-level type arguments directly.
@@ -1445,7 +1478,7 @@ namespace bloch::compiler {
                 if (local.value != ValueType::Unknown || !local.className.empty())
                     return local;
                 if (auto field = resolveField(v->name, v->line, v->column))
-                    return field->type;
+                    return memberTypeThrough(field->type, field->owner, selfType());
                 return combine(ValueType::Unknown, "");
             }
             return combine(ValueType::Unknown, "");
@@ -1460,25 +1493,11 @@ namespace bloch::compiler {
                         searchType = *bound;
                 }
                 auto* field = findFieldInHierarchy(searchType, mem->member);
-                if (field) {
-                    if (!searchType.typeArgs.empty()) {
-                        const ClassInfo* ci = findClass(searchType.className);
-                        if (ci)
-                            return substituteTypeParams(field->type, ci->typeParams,
-                                                        searchType.typeArgs);
-                    }
-                    return field->type;
-                }
+                if (field)
+                    return memberTypeThrough(field->type, field->owner, searchType);
                 auto* method = findMethodInHierarchy(searchType, mem->member);
-                if (method) {
-                    if (!searchType.typeArgs.empty()) {
-                        const ClassInfo* ci = findClass(searchType.className);
-                        if (ci)
-                            return substituteTypeParams(method->returnType, ci->typeParams,
-                                                        searchType.typeArgs);
-                    }
-                    return method->returnType;
-                }
+                if (method)
+                    return memberTypeThrough(method->returnType, method->owner, searchType);
             }
             return combine(ValueType::Unknown, "");
         }
@@ -1902,7 +1921,7 @@ namespace bloch::compiler {
         if (auto field = resolveField(node.name, node.line, node.column)) {
             recordFinalFieldAssignment(*field, node.name, node.line, node.column);
             if (node.value) {
-                TypeInfo targetType = field->type;
+                TypeInfo targetType = memberTypeThrough(field->type, field->owner, selfType());
                 inferDiamondTypeArguments(node.value.get(), targetType, node.line, node.column);
                 auto valType = inferTypeInfo(node.value.get());
                 bool fieldIsArray =
@@ -1919,7 +1938,7 @@ namespace bloch::compiler {
                     throw BlochError(ErrorCategory::Semantic, node.line, node.column,
                                      "assignment to field '" + node.name + "' expects '" +
                                          typeLabel(targetType) + "'");
-                } else if (field->type.value != ValueType::Unknown &&
+                } else if (targetType.value != ValueType::Unknown &&
                            !primitiveAccepts(targetType.value, valType)) {
                     throw BlochError(ErrorCategory::Semantic, node.line, node.column,
                                      "assignment to field '" + node.name + "' expects '" +
@@ -2319,9 +2338,10 @@ namespace bloch::compiler {
                                      "static methods should be accessed via the type, not super");
                 }
             }
-            auto params = method->paramTypes;
-            if (cls)
-                params = substituteMany(params, cls->typeParams, searchType.typeArgs);
+            std::vector<TypeInfo> params;
+            params.reserve(method->paramTypes.size());
+            for (const auto& pt : method->paramTypes)
+                params.push_back(memberTypeThrough(pt, method->owner, searchType));
             checkArgs(params, member->member, node.line, node.column);
         } else if (auto superCtor = dynamic_cast<SuperExpression*>(node.callee.get())) {
             (void)superCtor;
@@ -2583,7 +2603,7 @@ namespace bloch::compiler {
         if (auto field = resolveField(node.name, node.line, node.column)) {
             recordFinalFieldAssignment(*field, node.name, node.line, node.column);
             if (node.value) {
-                TypeInfo targetType = field->type;
+                TypeInfo targetType = memberTypeThrough(field->type, field->owner, selfType());
                 inferDiamondTypeArguments(node.value.get(), targetType, node.line, node.column);
                 auto valType = inferTypeInfo(node.value.get());
                 bool fieldIsArray =
@@ -2600,7 +2620,7 @@ namespace bloch::compiler {
                     throw BlochError(ErrorCategory::Semantic, node.line, node.column,
                                      "assignment to field '" + node.name + "' expects '" +
                                          typeLabel(targetType) + "'");
-                } else if (field->type.value != ValueType::Unknown &&
+                } else if (targetType.value != ValueType::Unknown &&
                            !primitiveAccepts(targetType.value, valType)) {
                     throw BlochError(ErrorCategory::Semantic, node.line, node.column,
                                      "assignment to field '" + node.name + "' expects '" +
@@ -2661,9 +2681,7 @@ namespace bloch::compiler {
             recordFinalFieldAssignment(*field, node.member, node.line, node.column);
         }
         if (node.value) {
-            TypeInfo targetType = field->type;
-            if (!searchType.typeArgs.empty() && cls)
-                targetType = substituteTypeParams(targetType, cls->typeParams, searchType.typeArgs);
+            TypeInfo targetType = memberTypeThrough(field->type, field->owner, searchType);
             inferDiamondTypeArguments(node.value.get(), targetType, node.line, node.column);
             auto valType = inferTypeInfo(node.value.get());
             bool fieldIsArray = targetType.className.size() >= 2 &&
